@@ -50,7 +50,7 @@ func init() {
 		ID:    "C14",
 		Level: "exploration",
 		Rule: "paired replays of one generated deterministic application history (literal blobs, no random()/time in SQL): multi-statement transactions committed or rolled back (cache_size=4, so open transactions spill frames), autocommit INSERT/UPDATE/DELETE, DDL (create/drop table and index, add column), VACUUM, incremental_vacuum, PRAGMA user_version / application_id, application checkpoints in 4 modes, a second connection holding a long read transaction, disconnect/reconnect of every application connection. " +
-			"control = no litestream; treatment = litestream open on the database with DB.Sync / SyncAndWait / Checkpoint(4 modes) / Snapshot / Compact(1,2) / Close+Open (same object) / Close+new DB object inserted by a separate PRNG after application steps, also inside open application transactions and while the application is disconnected, x configuration lattice (page size, auto_vacuum, checkpoint thresholds, sync chunking). " +
+			"control = no litestream; treatment = litestream open on the database with DB.Sync / SyncAndWait / Checkpoint(4 modes) / Snapshot / Compact(1,2) / Close+Open (same object) / Close+new DB object inserted by a separate PRNG after application steps, also inside open application transactions and while the application is disconnected; inside an open application write transaction one Sync / Snapshot / Checkpoint in three is started in a goroutine of its own and joined only after the application has ended that transaction (the call meets the held write lock and is in flight across the commit), x configuration lattice (page size, auto_vacuum, checkpoint thresholds, sync chunking). " +
 			"Oracle after the history (on a recovered copy of db+wal): logical dump (schema text + rows in rowid order of every non-_litestream_ object) equal; sqlite_master of the treatment = control + a subset of {_litestream_seq, _litestream_lock}; _litestream_lock empty; integrity_check ok; journal_mode wal; user_version and application_id equal; everything the application read during the history (rows affected, long-reader aggregates) equal. At every quiescent point of the treatment: _litestream_lock empty and the database header still says WAL. " +
 			"distinct = hash(config, application history, litestream op sequence); non-trivial = >=5 application commits, >=1 litestream op inside an open application transaction, >=1 litestream-driven checkpoint completed",
 		Assumptions: []string{"file replica client only", "modernc SQLite executes the application and the reference dumps", "an application statement that meets SQLITE_BUSY is retried until it succeeds (the two runs must commit the same transactions); results of explicit application checkpoints are not compared"},
@@ -265,6 +265,61 @@ type world struct {
 	commits  int
 	busyRetr int
 	reported map[string]bool // quiescent-point violations already raised (one per key and case)
+	// pending: a litestream call started while an application write transaction was open and
+	// still in flight while the application goes on (and commits); joined once the transaction ended
+	pending  *pendingOp
+	nOverlap int
+}
+
+type pendingOp struct {
+	name string
+	done chan error
+}
+
+// startOverlap starts one litestream call that needs SQLite's write lock in a goroutine of its
+// own: it meets the application's open write transaction and is still running when that commits.
+func (w *world) startOverlap(ctx context.Context) {
+	p := &pendingOp{done: make(chan error, 1)}
+	ls := w.ls
+	switch r := w.lsRng.Intn(4); {
+	case r == 0:
+		p.name = "Sync"
+		go func() { p.done <- ls.Sync(ctx) }()
+	case r == 1:
+		p.name = "Snapshot"
+		go func() { _, err := ls.Snapshot(ctx); p.done <- err }()
+	default:
+		mode := hist.CheckpointModes[w.lsRng.Intn(4)]
+		p.name = "Checkpoint-" + mode
+		go func() { p.done <- ls.Checkpoint(ctx, mode) }()
+	}
+	w.pending = p
+	w.logf("  litestream %s started concurrently with the open application transaction", p.name)
+}
+
+func (w *world) joinPending() {
+	p := w.pending
+	if p == nil {
+		return
+	}
+	w.pending = nil
+	var err error
+	select {
+	case err = <-p.done:
+	case <-time.After(2 * time.Minute):
+		w.res.HarnessErr = "litestream " + p.name + " started inside an application transaction did not return within 2 minutes"
+		return
+	}
+	w.nOverlap++
+	name := p.name + "(overlapping)"
+	w.logf("  litestream %s returned err=%v", name, err)
+	w.lsOps = append(w.lsOps, name)
+	if err == nil {
+		w.res.Count("ls_ok_"+name, 1)
+	} else {
+		w.res.Count("ls_failed_"+name, 1)
+	}
+	w.quiescent(name)
 }
 
 func (w *world) violateOnce(key, format string, a ...any) {
@@ -460,6 +515,19 @@ func (w *world) maybeLS(ctx context.Context, density int) {
 	if !w.treatment {
 		return
 	}
+	if w.pending != nil {
+		if w.inTx {
+			return // litestream calls stay sequential among themselves
+		}
+		w.joinPending()
+		if w.res.HarnessErr != "" {
+			return
+		}
+	}
+	if w.inTx && w.w != nil && w.meta == "" && !w.startDelete && w.lsRng.Intn(3) == 0 {
+		w.startOverlap(ctx)
+		return
+	}
 	for k := 0; k < 2 && w.lsRng.Intn(10) < density; k++ {
 		w.lsOp(ctx)
 		if w.res.HarnessErr != "" {
@@ -560,6 +628,11 @@ func (w *world) replay(ctx context.Context, s spec, h []step) error {
 				}
 				w.busyRetr++
 				w.logf("step %d busy (%v), retrying the same statement", i, err)
+				if try >= 200 && w.pending != nil {
+					w.joinPending()
+					try = 0
+					continue
+				}
 				if try >= 200 {
 					if w.treatment {
 						// The control run executed the same statement without contention and no
@@ -646,6 +719,7 @@ func (w *world) replay(ctx context.Context, s spec, h []step) error {
 		if !w.treatment {
 			return
 		}
+		w.joinPending()
 		cctx, cancel := context.WithTimeout(ctx, 60*time.Second)
 		err := w.ls.Close(cctx)
 		cancel()
@@ -916,6 +990,7 @@ func runCase(run *vf.Run, raw json.RawMessage, dir string) *vf.Result {
 		ckpts += res.Counters["ls_ok_Checkpoint-"+m]
 	}
 	res.Count("ls_ops", len(trt.lsOps))
+	res.Count("ls_ops_overlapping_an_application_commit", trt.nOverlap)
 	res.Count("ls_ops_inside_open_app_txn", trt.nInTx)
 	res.Count("ls_ops_while_app_disconnected", trt.nOffline)
 	res.Count("app_commits", trt.commits)
